@@ -71,16 +71,33 @@ def err_variant(e):
 
 
 def ret_err_sites(fn, R):
-    """[(bb, variant-or-None, stmt)] for every `_0 = Err(..)` in fn"""
+    """[(bb, variant-or-None, stmt)] for every `_0 = Err(..)` in fn — and for every Err(..) built into another local
+    of the function's own return type (the return value of an inlined helper, which reaches `_0` through `?`)"""
     out = []
+    rty = fn.locals[0]["ty"]
     for bi, b in enumerate(fn.blocks):
+        if b.get("cleanup"):
+            continue
         for s in b["stmts"]:
-            if s["k"] == "assign" and s["place"]["local"] == 0 and not s["place"]["proj"]:
+            if s["k"] == "assign" and not s["place"]["proj"] and (s["place"]["local"] == 0 or result_err_compatible(fn, s["place"]["local"], rty)):
                 rv = s["rv"]
                 if rv["k"] == "aggregate" and rv.get("agg") == "adt" and rv["adt"].endswith("result::Result") and rv["variant_name"] == "Err":
                     e = strip_bb(R.op(rv["ops"][0]))
                     out.append((bi, err_variant(e), s))
     return out
+
+
+def result_err_compatible(fn, local, rty):
+    """local is a Result whose error type is the error type of the function's return type"""
+    lt = fn.locals[local]["ty"]
+    if lt == rty:
+        return True
+    a = fn.facts.types[lt]
+    b = fn.facts.types[rty]
+    sa, sb = a.get("s", ""), b.get("s", "")
+    if not (sa.startswith("std::result::Result<") and sb.startswith("std::result::Result<")):
+        return False
+    return sa.rsplit(",", 1)[-1].strip() == sb.rsplit(",", 1)[-1].strip()
 
 
 def ret_ok_sites(fn):
